@@ -20,7 +20,7 @@ ASSUMPTIONS = [
     "vlib/casref.py (independent tape grammar and variant writer) is the trusted reference",
     "names compare case-insensitively, space padded / truncated to 8 characters, as the property states",
 ]
-HEALTH = {"multi_file": 0.3, "len_edge": 0.2, "has_553c": 0.05, "foreign": 0.3}
+HEALTH = {"multi_file": 0.12, "len_edge": 0.08, "has_553c": 0.02, "foreign": 0.12}
 EXHAUSTIVE = {"quick": ["single file of every data length 0..1100, tool-written and independently written"],
               "thorough": ["single file of every data length 0..4000, tool-written and independently written"]}
 
